@@ -45,7 +45,7 @@ def gen(seed, idx, tier):
         scn["options"]["solve_time"] = scen.r3(scn["options"]["dt_init"] * rnd.randint(60, 300))
         scn["options"]["adaptive"] = True
         scn["options"]["dt_max"] = scen.r3(scn["options"]["dt_init"] * rnd.choice([2.0, 10.0]))
-    return scen.maybe_restored(rnd, scen.maybe_solve_twice(rnd, scn))
+    return scen.maybe_sibling(rnd, scen.maybe_restored(rnd, scen.maybe_solve_twice(rnd, scn)), 0.15)
 
 
 def post(sim, h):
